@@ -19,6 +19,8 @@ STRINGY = (SStr, SDec)
 def is_concrete(v, depth=0):
     if isinstance(v, (Sym, SymSeq, Obj)):
         return False
+    if type(v).__name__ in ('OpaqueVal', 'OpaqueFn', 'ArrVal'):
+        return False
     if type(v).__name__ in ('DateVal', 'DeltaVal'):
         return False
     from .interp import Closure, BoundMethod, NativeMethod
@@ -463,6 +465,8 @@ def band(vs):
 
 
 def identical(interp, a, b):
+    if a is b:
+        return True
     if isinstance(a, SErr) or isinstance(b, SErr):
         return equal_err(interp, a, b)
     if isinstance(a, SComplex) or isinstance(b, SComplex):
@@ -1151,6 +1155,17 @@ def _isinstance(interp, v, cls):
     from .interp import Closure
     if isinstance(v, Closure):
         return any(c in (types.FunctionType, object) for c in classes)
+    tn = type(v).__name__
+    if tn == 'OpaqueVal':
+        if all(c in (object,) for c in classes):
+            return True
+        kinds = getattr(v, 'not_instance_of', ())
+        if all(any(c is k or issubclass(c, k) for k in kinds) for c in classes if isinstance(c, type)):
+            return False
+        raise Unsupported('isinstance of an opaque value against %r' % (cls,))
+    if tn == 'ArrVal':
+        import numpy as np
+        return any(isinstance(c, type) and issubclass(np.ndarray, c) for c in classes)
     return isinstance(v, cls)
 
 
@@ -1734,6 +1749,28 @@ def _isfinite(interp, v, *a, **k):
 
 def _register_numpy():
     import numpy as np
+    from .values import ArrVal
+
+    def _asarray(interp, v, dtype=None, *a, **k):
+        if is_concrete(v):
+            try:
+                return np.asarray(v, dtype)
+            except Exception as ex:
+                interp.raise_(type(ex), *ex.args)
+        if dtype is object and isinstance(v, list) and all(isinstance(r, list) for r in v):
+            return ArrVal([list(r) for r in v])
+        raise Unsupported('np.asarray of %r' % (v,))
+    BUILTINS[np.asarray] = _asarray
+
+    def _rand(interp, *a):
+        if a:
+            raise Unsupported('np.random.rand with a shape')
+        r = interp.ctx.fresh('rand', tm.REAL)
+        interp.ctx.assume(tm.mk_le(tm.const(Fraction(0)), r))
+        interp.ctx.assume(tm.mk_lt(r, tm.const(Fraction(1))))
+        interp.ctx.ghost.setdefault('assumptions', set()).add('0 <= np.random.rand() < 1')
+        return SReal(r)
+    BUILTINS[np.random.rand] = _rand
     BUILTINS[np.isfinite] = _isfinite
     BUILTINS[math.isfinite] = _isfinite
 
